@@ -8,9 +8,10 @@ import TapkeeVerif.Model.LinearGraph
 import TapkeeVerif.Proofs.MatBridge
 /-!
 Helper lemmas for C10 (`Props/C10.lean`): closed forms of the folds of `Model/LinearGraph.lean`
-(`sampleSumD`, `weightSumD`), of the three `construct_*_eigenproblem` models, and of what Eigen's generalised
-solver reads of them (`genSolveLower`).  The patched routines and the rotation algebra are in
-`Proofs/LinearGraphFixed.lean`.
+(`sampleSumD`, `weightSumD`) and of the three `construct_*_eigenproblem` models as they are now (after the fix commits
+F-LIN-TRI and F-LLTSA-CENTRE): the returned pairs are the full forms, both triangles.
+The rotation algebra is in `Proofs/LinearGraphFixed.lean`; the routines as they were BEFORE the fixes, with what was
+proved of them (regression witnesses), are in `Proofs/LinearGraphPreFix.lean`.
 -/
 namespace TapkeeVerif.LinearGraph
 open TapkeeVerif
@@ -131,19 +132,6 @@ theorem centredMoment_symm (F : Mat N D K) (i j : Fin D) : centredMoment F i j =
 
 /-! ### triangle views -/
 
-/-- `rhs += rhsᵀ; rhs /= 2` applied to a matrix whose strictly lower part is zero HALVES the off-diagonal -/
-theorem halfSym_upper (S : Mat D D K) (hS : ∀ i j, S i j = S j i) (h2 : (2 : K) ≠ 0) (i j : Fin D) :
-    halfSym (fun i j => if i ≤ j then S i j else 0) i j = if i = j then S i i else S i j / 2 := by
-  simp only [halfSym, Nat.cast_ofNat]
-  rcases lt_trichotomy i j with h | h | h
-  · rw [if_pos h.le, if_neg (not_le.mpr h), if_neg h.ne, add_zero]
-  · subst h
-    rw [if_pos le_rfl, if_pos rfl, ← two_mul, mul_div_cancel_left₀ _ h2]
-  · rw [if_neg (not_le.mpr h), if_pos h.le, if_neg h.ne', zero_add, hS j i]
-
-theorem halfSym_symm (A : Mat D D K) (i j : Fin D) : halfSym A i j = halfSym A j i := by
-  simp only [halfSym, add_comm]
-
 /-- a reader of the lower triangle sees only the diagonal of an upper-only matrix -/
 theorem lowerView_upperOnly (X : Mat D D K) (i j : Fin D) :
     Mat.lowerView (fun i j => if i ≤ j then X i j else 0) i j = if i = j then X i i else 0 := by
@@ -191,27 +179,6 @@ theorem sampleSumD_get_closed (F : Mat N D K) (wt : Vec N K) :
   funext i j
   rw [sampleSumD_get, sampleSum_closed]
 
-theorem npeProblem_fst (W : Mat N N K) (F : Mat N D K) : (npeProblem W F).1 = (weightSumD W F).get := rfl
-
-theorem npeProblem_snd (W : Mat N N K) (F : Mat N D K) :
-    (npeProblem W F).2 = halfSym (sampleSumD F fun _ => 1).get := by
-  simp only [npeProblem, npeProblemD, DMat.get_ofFn]
-
-theorem lppProblem_fst (L : Mat N N K) (Dg : Vec N K) (F : Mat N D K) :
-    (lppProblem L Dg F).1 = (weightSumD L F).get := rfl
-
-theorem lppProblem_snd (L : Mat N N K) (Dg : Vec N K) (F : Mat N D K) :
-    (lppProblem L Dg F).2 = (sampleSumD F Dg).get := rfl
-
-theorem lltsaProblem_fst (W : Mat N N K) (F : Mat N D K) :
-    (lltsaProblem W F).1 = rankUpdate1 (weightSumD W F).get (featureSum F) ((-1) / (N : K)) := by
-  simp only [lltsaProblem, lltsaProblemD, rankUpdate1D, DMat.get_ofFn, DVec.get_ofFn]
-
-theorem lltsaProblem_snd (W : Mat N N K) (F : Mat N D K) :
-    (lltsaProblem W F).2
-      = halfSym (rankUpdate1 (sampleSumD F fun _ => 1).get (featureSum F) ((-1) / (N : K))) := by
-  simp only [lltsaProblem, lltsaProblemD, rankUpdate1D, DMat.get_ofFn, DVec.get_ofFn]
-
 /-- a rank-one upper update of an upper-only matrix is upper-only -/
 theorem rankUpdate1_upperOnly (X : Mat D D K) (u : Vec D K) (α : K) :
     rankUpdate1 (fun i j => if i ≤ j then X i j else 0) u α
@@ -220,58 +187,86 @@ theorem rankUpdate1_upperOnly (X : Mat D D K) (u : Vec D K) (α : K) :
   simp only [rankUpdate1]
   split <;> rfl
 
-theorem npe_lhs_get {W : Mat N N K} (hW : ∀ r c, W r c = W c r) (F : Mat N D K) :
-    (npeProblem W F).1 = fun i j => if i ≤ j then 2 * fullForm W F i j else 0 := by
-  rw [npeProblem_fst, weightSumD_get_symm hW]
+theorem mirrorUpperD_get (A : DMat D D K) : (mirrorUpperD A).get = Mat.upperView A.get := by
+  unfold mirrorUpperD
+  rw [DMat.get_ofFn]
 
-theorem npe_rhs_get (W : Mat N N K) (F : Mat N D K) (h2 : (2 : K) ≠ 0) (i j : Fin D) :
-    (npeProblem W F).2 i j
-      = if i = j then fullDiagForm (fun _ => 1) F i i else fullDiagForm (fun _ => 1) F i j / 2 := by
-  rw [npeProblem_snd, sampleSumD_get_closed]
-  exact halfSym_upper _ (fullDiagForm_symm _ F) h2 i j
+theorem mirror_weightSum {W : Mat N N K} (hW : ∀ r c, W r c = W c r) (F : Mat N D K) :
+    (mirrorUpperD (weightSumD W F)).get = fun i j => 2 * fullForm W F i j := by
+  rw [mirrorUpperD_get, weightSumD_get_symm hW]
+  exact upperView_upperOnly (fun i j => 2 * fullForm W F i j) (fun i j => by rw [fullForm_symm hW])
 
-theorem lpp_lhs_get {L : Mat N N K} (hL : ∀ r c, L r c = L c r) (Dg : Vec N K) (F : Mat N D K) :
-    (lppProblem L Dg F).1 = fun i j => if i ≤ j then 2 * fullForm L F i j else 0 := by
-  rw [lppProblem_fst, weightSumD_get_symm hL]
+theorem mirror_sampleSum (F : Mat N D K) (wt : Vec N K) :
+    (mirrorUpperD (sampleSumD F wt)).get = fullDiagForm wt F := by
+  rw [mirrorUpperD_get, sampleSumD_get_closed]
+  exact upperView_upperOnly _ (fullDiagForm_symm wt F)
 
-theorem lpp_rhs_get (L : Mat N N K) (Dg : Vec N K) (F : Mat N D K) :
-    (lppProblem L Dg F).2 = fun i j => if i ≤ j then fullDiagForm Dg F i j else 0 := by
-  rw [lppProblem_snd, sampleSumD_get_closed]
+theorem fullForm_centering_symm (F : Mat N D K) (i j : Fin D) :
+    fullForm centering F i j = fullForm centering F j i := by
+  rw [fullForm_centering, fullForm_centering]
+  exact centredMoment_symm F i j
 
-theorem lltsa_lhs_get {W : Mat N N K} (hW : ∀ r c, W r c = W c r) (F : Mat N D K) :
-    (lltsaProblem W F).1
-      = fun i j => if i ≤ j then 2 * fullForm W F i j - featureSum F i * featureSum F j / (N : K) else 0 := by
-  rw [lltsaProblem_fst, weightSumD_get_symm hW, rankUpdate1_upperOnly]
-  funext i j
-  split
-  · ring
-  · rfl
-
-theorem lltsa_rhs_get (W : Mat N N K) (F : Mat N D K) (h2 : (2 : K) ≠ 0) (i j : Fin D) :
-    (lltsaProblem W F).2 i j = if i = j then centredMoment F i i else centredMoment F i j / 2 := by
-  rw [lltsaProblem_snd, sampleSumD_get_closed, rankUpdate1_upperOnly]
+theorem mirror_centredSampleSum (F : Mat N D K) :
+    (mirrorUpperD (rankUpdate1D (sampleSumD F fun _ => 1) (DVec.ofFn (featureSum F)).get ((-1) / (N : K)))).get
+      = fullForm centering F := by
+  rw [mirrorUpperD_get]
+  simp only [rankUpdate1D, DMat.get_ofFn, DVec.get_ofFn]
+  rw [sampleSumD_get_closed, rankUpdate1_upperOnly]
   have h : (fun i j : Fin D => if i ≤ j then
         fullDiagForm (fun _ => 1) F i j + (-1) / (N : K) * (featureSum F i * featureSum F j) else 0)
-      = fun i j => if i ≤ j then centredMoment F i j else 0 := by
+      = fun i j => if i ≤ j then fullForm centering F i j else 0 := by
     funext i j
     split
-    · unfold centredMoment
+    · rw [fullForm_centering]
       ring
     · rfl
   rw [h]
-  exact halfSym_upper _ (centredMoment_symm F) h2 i j
+  exact upperView_upperOnly _ (fullForm_centering_symm F)
 
-theorem npe_rhs_symm (W : Mat N N K) (F : Mat N D K) (i j : Fin D) :
-    (npeProblem W F).2 i j = (npeProblem W F).2 j i := by
-  rw [npeProblem_snd]
-  exact halfSym_symm _ i j
+/-- NPE returns `(2 · Fᵀ W F, Fᵀ F)`, both triangles -/
+theorem npe_returns {W : Mat N N K} (hW : ∀ r c, W r c = W c r) (F : Mat N D K) :
+    npeProblem W F = (fun i j => 2 * fullForm W F i j, fullDiagForm (fun _ => 1) F) := by
+  show ((mirrorUpperD (weightSumD W F)).get, (mirrorUpperD (sampleSumD F fun _ => 1)).get) = _
+  rw [mirror_weightSum hW, mirror_sampleSum]
 
-theorem lltsa_rhs_symm (W : Mat N N K) (F : Mat N D K) (i j : Fin D) :
-    (lltsaProblem W F).2 i j = (lltsaProblem W F).2 j i := by
-  rw [lltsaProblem_snd]
-  exact halfSym_symm _ i j
+/-- LLTSA returns `(2 · Fᵀ W F, Fᵀ H F)`, both triangles (no hypothesis on `N`: for `N = 0` everything is `0`) -/
+theorem lltsa_returns {W : Mat N N K} (hW : ∀ r c, W r c = W c r) (F : Mat N D K) :
+    lltsaProblem W F = (fun i j => 2 * fullForm W F i j, fullForm centering F) := by
+  show ((mirrorUpperD (weightSumD W F)).get,
+    (mirrorUpperD (rankUpdate1D (sampleSumD F fun _ => 1) (DVec.ofFn (featureSum F)).get ((-1) / (N : K)))).get) = _
+  rw [mirror_weightSum hW, mirror_centredSampleSum]
 
-/-! ### the witness of `C10.solver_sees_XMXt_refuted`: two samples `(1,0)`, `(1,1)` in the plane, `W = 1` -/
+/-- LPP returns `(2 · Fᵀ L F, Fᵀ diag(Dg) F)`, both triangles -/
+theorem lpp_returns {L : Mat N N K} (hL : ∀ r c, L r c = L c r) (Dg : Vec N K) (F : Mat N D K) :
+    lppProblem L Dg F = (fun i j => 2 * fullForm L F i j, fullDiagForm Dg F) := by
+  show ((mirrorUpperD (weightSumD L F)).get, (mirrorUpperD (sampleSumD F Dg)).get) = _
+  rw [mirror_weightSum hL, mirror_sampleSum]
+
+theorem two_fullForm_symm {W : Mat N N K} (hW : ∀ r c, W r c = W c r) (F : Mat N D K) (i j : Fin D) :
+    (fun i j => 2 * fullForm W F i j) i j = (fun i j => 2 * fullForm W F i j) j i := by
+  show 2 * fullForm W F i j = 2 * fullForm W F j i
+  rw [fullForm_symm hW]
+
+/-- the generalised solver (lower triangles) sees the NPE pair in full -/
+theorem genSolveLower_npe {W : Mat N N K} (hW : ∀ r c, W r c = W c r) (F : Mat N D K) :
+    genSolveLower (npeProblem W F) = (fun i j => 2 * fullForm W F i j, fullDiagForm (fun _ => 1) F) := by
+  rw [npe_returns hW]
+  show (Mat.lowerView _, Mat.lowerView _) = _
+  rw [lowerView_of_symm _ (two_fullForm_symm hW F), lowerView_of_symm _ (fullDiagForm_symm _ F)]
+
+theorem genSolveLower_lltsa {W : Mat N N K} (hW : ∀ r c, W r c = W c r) (F : Mat N D K) :
+    genSolveLower (lltsaProblem W F) = (fun i j => 2 * fullForm W F i j, fullForm centering F) := by
+  rw [lltsa_returns hW]
+  show (Mat.lowerView _, Mat.lowerView _) = _
+  rw [lowerView_of_symm _ (two_fullForm_symm hW F), lowerView_of_symm _ (fullForm_centering_symm F)]
+
+theorem genSolveLower_lpp {L : Mat N N K} (hL : ∀ r c, L r c = L c r) (Dg : Vec N K) (F : Mat N D K) :
+    genSolveLower (lppProblem L Dg F) = (fun i j => 2 * fullForm L F i j, fullDiagForm Dg F) := by
+  rw [lpp_returns hL]
+  show (Mat.lowerView _, Mat.lowerView _) = _
+  rw [lowerView_of_symm _ (two_fullForm_symm hL F), lowerView_of_symm _ (fullDiagForm_symm _ F)]
+
+/-! ### the witness of `C10.prefix_solver_sees_XMXt_refuted`: two samples `(1,0)`, `(1,1)` in the plane, `W = 1` -/
 
 def refuteW : Mat 2 2 ℚ := fun r c => if r = c then 1 else 0
 def refuteF : Mat 2 2 ℚ := fun r j => if r = 0 ∧ j = 1 then 0 else 1
